@@ -18,6 +18,10 @@ import (
 	"google.golang.org/protobuf/proto"
 )
 
+// zz25ErrBadKey: the libp2p crypto package is opaque (never initialised) under the engine, so its error values are
+// nil there; the key models use their own.
+var zz25ErrBadKey = errors.New("zz25: bad key")
+
 // =====================================================================================================
 // Models (active under the engine only; natively the real code runs)
 // =====================================================================================================
@@ -278,12 +282,15 @@ func HarnessC25Validate() {
 		return verifrt.NondetRange(name, 0, hi)
 	}
 	// legacy Value: absent / same length as the signed value (content free) / one byte longer
-	valShape := legacyRange("valShape", 2)
+	// (full: also present but empty)
+	valShape := legacyRange("valShape", zz25ite(full, 3, 2))
 	switch valShape {
 	case 1:
 		pb.Value = verifrt.NondetBytes("pvalue", cvl)
 	case 2:
 		pb.Value = verifrt.NondetBytes("pvalue", cvl+1)
+	case 3:
+		pb.Value = []byte{}
 	}
 	if legacyRange("hasSigV1", 1) == 1 {
 		pb.SignatureV1 = verifrt.NondetBytes("sigV1", 1)
@@ -359,28 +366,6 @@ func HarnessC25Validate() {
 	}
 	verifrt.Assert("C25.accepted-within-size-limit", size <= MaxRecordSize)
 
-	// (d) every legacy field that is present agrees with the signed document
-	gated := len(pb.SignatureV1) != 0 || len(pb.Value) != 0
-	sfx := ""
-	if !gated {
-		sfx = "-when-no-value-no-sigv1"
-	}
-	if pb.Value != nil {
-		verifrt.Assert("C25.legacy-value-agrees", string(pb.Value) == string(sd.value))
-	}
-	if pb.Validity != nil {
-		verifrt.Assert("C25.legacy-validity-agrees"+sfx, string(pb.Validity) == string(cvalidity))
-	}
-	if pb.ValidityType != nil {
-		verifrt.Assert("C25.legacy-validitytype-agrees"+sfx, int64(*pb.ValidityType) == sd.vtype)
-	}
-	if pb.Sequence != nil {
-		verifrt.Assert("C25.legacy-sequence-agrees"+sfx, *pb.Sequence == uint64(sd.seq))
-	}
-	if pb.Ttl != nil {
-		verifrt.Assert("C25.legacy-ttl-agrees"+sfx, *pb.Ttl == uint64(sd.ttl))
-	}
-
 	// (e) accessors report the signed values
 	seq, err := rec.Sequence()
 	verifrt.Assert("C25.accessor-no-error", err == nil)
@@ -398,6 +383,28 @@ func HarnessC25Validate() {
 	val, err := rec.getBytesValue(cborValueKey)
 	verifrt.Assert("C25.accessor-no-error", err == nil)
 	verifrt.Assert("C25.accessor-value-bytes", string(val) == string(sd.value))
+	// (d) every legacy field that is present agrees with the signed document
+	gated := len(pb.SignatureV1) != 0 || len(pb.Value) != 0
+	sfx := ""
+	if !gated {
+		sfx = "-when-no-value-no-sigv1"
+	}
+	if pb.Value != nil {
+		verifrt.Assert("C25.legacy-value-agrees"+sfx, string(pb.Value) == string(sd.value))
+	}
+	if pb.Validity != nil {
+		verifrt.Assert("C25.legacy-validity-agrees"+sfx, string(pb.Validity) == string(cvalidity))
+	}
+	if pb.ValidityType != nil {
+		verifrt.Assert("C25.legacy-validitytype-agrees"+sfx, int64(*pb.ValidityType) == sd.vtype)
+	}
+	if pb.Sequence != nil {
+		verifrt.Assert("C25.legacy-sequence-agrees"+sfx, *pb.Sequence == uint64(sd.seq))
+	}
+	if pb.Ttl != nil {
+		verifrt.Assert("C25.legacy-ttl-agrees"+sfx, *pb.Ttl == uint64(sd.ttl))
+	}
+
 	verifrt.Observe("seq", seq)
 	verifrt.Observe("ttl", int64(ttl))
 	verifrt.Reach("end")
@@ -541,7 +548,7 @@ func zz25PeerID(k byte) peer.ID {
 // bound to ic.UnmarshalPublicKey
 func zz25UnmarshalPublicKey(data []byte) (ic.PubKey, error) {
 	if len(data) != 2 || data[0] != 0x4b || data[1] > 2 {
-		return nil, ic.ErrBadKeyType
+		return nil, zz25ErrBadKey
 	}
 	return &zz25Pub{id: data[1]}, nil
 }
@@ -550,7 +557,7 @@ func zz25UnmarshalPublicKey(data []byte) (ic.PubKey, error) {
 func zz25IDFromPublicKey(pk ic.PubKey) (peer.ID, error) {
 	p, ok := pk.(*zz25Pub)
 	if !ok {
-		return "", ic.ErrBadKeyType
+		return "", zz25ErrBadKey
 	}
 	return zz25ModelID(p.id), nil
 }
@@ -564,7 +571,7 @@ func zz25ExtractPublicKey(id peer.ID) (ic.PubKey, error) {
 	if len(s) == 34 && s[0] == 0x12 {
 		return nil, peer.ErrNoPublicKey
 	}
-	return nil, ic.ErrBadKeyType
+	return nil, zz25ErrBadKey
 }
 
 // ---- protobuf decoding: opaque invertible codec; the one encoded record of the path decodes to its fields ----
